@@ -37,7 +37,9 @@ where
 
       source.inner_subscribe(sctl.new_observer(
         move |_, _| {
-          if let Some(start_time) = *start_time_next.read().unwrap() {
+          // no lock is held while downstream is called
+          let start_time = *start_time_next.read().unwrap();
+          if let Some(start_time) = start_time {
             sctl_next.sink_next(start_time.elapsed());
           }
           *start_time_next.write().unwrap() = Some(Instant::now());
@@ -46,7 +48,8 @@ where
           sctl_error.sink_error(e);
         },
         move |serial| {
-          if let Some(start_time) = *start_time_complete.read().unwrap() {
+          let start_time = *start_time_complete.read().unwrap();
+          if let Some(start_time) = start_time {
             sctl_complete.sink_next(start_time.elapsed());
           }
           sctl_complete.sink_complete(&serial);
